@@ -648,8 +648,30 @@ func rulesBedSkip(c *Ctx, r *Report) {
 	_, atoms := guardOfFull(s, calls[0].Block(), nil)
 	// the line text: what strings.Split receives
 	text := ""
+	lineArg := calls[0].Call.Args[0]
+	// the fields kept in a field of the reader between the split and the parse: r.line = strings.Split(…) …
+	// parseLine(r.line) — the one store into that field in this function, made before the call
+	if ld, ok := lineArg.(*ssa.UnOp); ok && ld.Op == token.MUL {
+		if fa, ok := ld.X.(*ssa.FieldAddr); ok && len(rd.Params) > 0 && fa.X == ssa.Value(rd.Params[0]) {
+			var stored ssa.Value
+			n := 0
+			instrs(rd, func(in ssa.Instruction) {
+				if st, ok := in.(*ssa.Store); ok {
+					if fa2, ok := st.Addr.(*ssa.FieldAddr); ok && fa2.X == fa.X && fa2.Field == fa.Field {
+						n++
+						if instrDominates(st, calls[0]) {
+							stored = st.Val
+						}
+					}
+				}
+			})
+			if n == 1 && stored != nil {
+				lineArg = stored
+			}
+		}
+	}
 	instrs(rd, func(in ssa.Instruction) {
-		if cl, ok := in.(*ssa.Call); ok && fnIs(cl.Call.StaticCallee(), "strings", "Split") && cl == calls[0].Call.Args[0] {
+		if cl, ok := in.(*ssa.Call); ok && fnIs(cl.Call.StaticCallee(), "strings", "Split") && ssa.Value(cl) == lineArg {
 			text = s.expr(cl.Call.Args[0]).String()
 		}
 	})
